@@ -119,7 +119,10 @@ CHECKS = {
               "(Lemmas/Shadow.lean: table_weight, insertion sort is a sorted permutation). About `prio` in key form (prioSpec): "
               "rank_strict_mono, rank_dense, rank_pos, rank_le_distinct — the rank is a function of the key, strictly smaller key "
               "=> strictly smaller rank, rank = 1 + number of distinct keys strictly below (dense, at most the number of distinct "
-              "keys); `rank` is compared as ranking(prioSpec). About the integer bit allocation "
+              "keys); `rank` is compared as ranking(prioSpec), and ranking itself is an order-preserving dense ranking "
+              "(ranking_strict_mono, ranking_eq_iff, ranking_dense); the selection methods: firstNZ_spec / lastNZ_spec (first / "
+              "last non-zero entry, 0 for a column of zeros), minNZ_spec (smallest non-zero entry), lmax_spec (largest entry), "
+              "compress0_selection. About the integer bit allocation "
               "that puan-rspy computes: oba_pos, oba_equal, oba_dominates, oba_mono. Tie: ndint_compress compared, for shadow, "
               "BOTH with the model that mirrors the code's plumbing (shadow2d / prio2d) and with the key forms shadowSpec / prioSpec, on 1-D, 2-D (both axes) and 3-D "
               "batches incl. all-zero and fully overridden rows; py_optimized_bit_allocation_64 compared with oba; prio / rank / "
@@ -210,7 +213,9 @@ CHECKS = {
               "nodes (hence every model Not(...) / negate produce): from_json(to_json(t)) evaluates like t on every assignment "
               "inside the leaf bounds; its core is nrt_node: the JSON written for the negation of a held condition (toJsonNeg, "
               "mirroring negate's case analysis: no atoms / grouped non-negative atoms / wrapped boolean atoms / not pushed) "
-              "reads back as the complement, for nodes of any class; defaults_kept — whenever the configurator's class map "
+              "reads back as the complement, for nodes of any class; build_roundtrip — the same for what the constructors build "
+              "(every constructor expression over the plog classes, RTExpr, builds a model of the fragment: closure of the "
+              "fragment under negate plus the shape each constructor produces); defaults_kept — whenever the configurator's class map "
               "reads back what a cc.Any / cc.Xor node wrote, the model it builds carries the same default; evaluation and "
               "default priorities of the configurator classes are tied by correspondence + oracle only; "
               "id_written_iff — for every class an explicitly given id is written and a generated one is not. Tie: to_json "
